@@ -39,7 +39,9 @@ def check_ctor(r):
     import dsw
     for k in range(1, 7):
         for run in [None] + list(range(1, k + 3)):
-            for mot in (None, ['A' * k], ['A' * (k + 1)], ['AC'][:1] if k >= 2 else None):
+            long_ = 'GGATCCAG'[:k + 1] if k + 1 <= 8 else 'G' * (k + 1)
+            for mot in (None, ['A' * k], ['A' * (k + 1)], ['AC'][:1] if k >= 2 else None, ['TA'[:k], long_], [long_, 'TA'[:k]],
+                        ['C', long_, 'T']):
                 st, f, _ = brun(dsw.LocalBioFilter, observed_length=k, max_homopolymer_runs=run, undesired_motifs=mot)
                 r.trans += 1
                 r.evals += 1
@@ -229,6 +231,11 @@ def run(ctx):
     Lmax = 5 if ctx.quick else 8
     m = [(k, d, (1, 2, 3, 4)) for k, d in menu(4 if ctx.quick else 5, ctx.quick)]
     m += [(k, d, (1, 2)) for k, d in experiment_menu(4, 6 if ctx.quick else 8)]
+    # GC bounds that are awkward in binary floating point / not multiples of 1/k, at windows up to 7 (8)
+    for k in (3, 5, 7) if ctx.quick else (3, 4, 5, 6, 7, 8):
+        for gc in (('0.29', '0.71'), ('0.58', '0.9'), ('0.335', '0.7'), ('0.125', '0.375'), ('0.57', '1'), ('0.14', '0.45')):
+            m.append((k, ('local', (k, None, gc, None)), (1, 2)))
+            m.append((k, ('local', (k, min(2, k - 1), gc, ['GC'] if k >= 4 else None)), (2,)))
     m.sort(key=lambda x: -x[0])
     ctx.pmap(_w_menu, [(Lmax, c) for c in core.chunks_of(m, 2)])
     ctx.log('menu done', ctx.res.evals)
